@@ -151,6 +151,9 @@ Build101(f) ==
      IN Txs(2)
 
 (* ================================ MT107 ================================== *)
+\* "diff": the second occurrence deviates; "lastdiff": only the last one does (rules that compare neighbours
+\* or pairs instead of every occurrence with the first go wrong there)
+Deviates(c, i, n) == (c = "diff" /\ i = 2) \/ (c = "lastdiff" /\ i = n)
 Place == {"none", "A", "first", "all", "Aall"}      \* where a field stands: nowhere, sequence A, first / every B, both
 InA(p) == p \in {"A", "Aall"}
 InAnyB(p) == p \in {"first", "all", "Aall"}
@@ -167,7 +170,7 @@ Facts107 ==
   \cup {[Base107 EXCEPT !.code = a, !.info = b, !.f72 = c] : a \in {"AUTH", "NAUT", "OTHR", "RTND", "ZZZZ"}, b, c \in BOOLEAN}
   \cup {[Base107 EXCEPT !.chB = a, !.chC = b] : a, b \in BOOLEAN}
   \cup {[Base107 EXCEPT !.f33 = a, !.f36 = b] : a \in {"none", "same", "diffcur", "diffamt"}, b \in BOOLEAN}
-  \cup {[Base107 EXCEPT !.ntx = 2, !.sumok = a, !.cur2 = b] : a \in BOOLEAN, b \in {"same", "diff"}}
+  \cup {[Base107 EXCEPT !.ntx = n, !.sumok = a, !.cur2 = b] : n \in {2, 3}, a \in BOOLEAN, b \in {"same", "diff", "lastdiff"}}
 Expected107(f) ==
      (IF (InA(f.e23) /\ InAnyB(f.e23)) \/ (~InA(f.e23) /\ ~InEveryB(f.e23, f.ntx))
          \/ (InA(f.cr) /\ InAnyB(f.cr)) \/ (~InA(f.cr) /\ ~InEveryB(f.cr, f.ntx)) THEN {"D86"} ELSE {})
@@ -181,13 +184,13 @@ Expected107(f) ==
                                              \* with charges in sequence B the sum must be in field 19 (absent here: D80);
                                              \* no field 19 here: the settlement amount itself must be the sum (D80);
                                              \* C01 concerns field 19, which these vectors never carry
-  \cup (IF f.ntx = 2 /\ f.cur2 = "diff" THEN {"C02"} ELSE {})
+  \cup (IF f.ntx >= 2 /\ f.cur2 # "same" THEN {"C02"} ELSE {})
   \cup (IF f.code = "ZZZZ" /\ f.e23 # "none" THEN {"T47"} ELSE {})
   \cup (IF f.info /\ f.code # "OTHR" /\ f.e23 # "none" THEN {"D81"} ELSE {})
 Opt107(p, tok, inA, i) == IF (inA /\ InA(p)) \/ (~inA /\ InB(p, i)) THEN <<tok>> ELSE <<>>
 Tx107(f, i) ==
   <<"21">> \o Opt107(f.e23, "23E=" \o f.code \o (IF f.info THEN "/INFO" ELSE ""), FALSE, i) \o Opt107(f.f21E, "21E", FALSE, i)
-  \o <<"32B=" \o (IF i = 2 /\ f.cur2 = "diff" THEN "EUR" ELSE "USD") \o ":100">>
+  \o <<"32B=" \o (IF Deviates(f.cur2, i, f.ntx) THEN "EUR" ELSE "USD") \o ":100">>
   \o Opt107(f.ip, "50C", FALSE, i) \o Opt107(f.cr, "50K", FALSE, i) \o Opt107(f.f52, "52A", FALSE, i)
   \o <<"59=acct">> \o Opt107(f.f26T, "26T", FALSE, i) \o Opt107(f.f77B, "77B", FALSE, i)
   \o (IF i = 1 /\ f.f33 = "same" THEN <<"33B=USD:100">> ELSE IF i = 1 /\ f.f33 = "diffcur" THEN <<"33B=EUR:90">>
@@ -200,7 +203,7 @@ Build107(f) ==
   \o <<"30">> \o Opt107(f.ip, "50C", TRUE, 0) \o Opt107(f.cr, "50K", TRUE, 0) \o Opt107(f.f52, "52A", TRUE, 0)
   \o Opt107(f.f26T, "26T", TRUE, 0) \o Opt107(f.f77B, "77B", TRUE, 0) \o Opt107(f.f71A, "71A=SHA", TRUE, 0)
   \o (IF f.f72 THEN <<"72">> ELSE <<>>)
-  \o Tx107(f, 1) \o (IF f.ntx = 2 THEN Tx107(f, 2) ELSE <<>>)
+  \o Tx107(f, 1) \o (IF f.ntx >= 2 THEN Tx107(f, 2) ELSE <<>>) \o (IF f.ntx >= 3 THEN Tx107(f, 3) ELSE <<>>)
   \o <<"32B=USD:" \o (IF f.sumok THEN ToString(100 * f.ntx) ELSE ToString(100 * f.ntx + 7))>>
   \o (IF f.chC THEN <<"71F=USD:" \o ToString(f.ntx), "71G=USD:" \o ToString(f.ntx)>> ELSE <<>>)
 
@@ -223,7 +226,7 @@ Facts104 ==
          r, c \in BOOLEAN, a, b \in {"none", "first"}}
   \cup {[Base104 EXCEPT !.chB = a, !.chC = b, !.seqC = c] : a, b, c \in BOOLEAN}
   \cup {[Base104 EXCEPT !.f33 = a, !.f36 = b] : a \in {"none", "same", "diffcur", "diffamt"}, b \in BOOLEAN}
-  \cup {[Base104 EXCEPT !.ntx = 2, !.sumok = a, !.cur2 = b, !.f19 = c] : a \in BOOLEAN, b \in {"same", "diff"}, c \in {"none", "ok", "bad"}}
+  \cup {[Base104 EXCEPT !.ntx = n, !.sumok = a, !.cur2 = b, !.f19 = c] : n \in {2, 3}, a \in BOOLEAN, b \in {"same", "diff", "lastdiff"}, c \in {"none", "ok", "bad"}}
 Expected104(f) ==
   LET a23 == InA(f.e23)
       rfdd == a23 /\ f.codeA = "RFDD"
@@ -240,14 +243,14 @@ Expected104(f) ==
   \cup (IF (f.f33 = "diffcur" /\ ~f.f36) \/ (f.f33 # "diffcur" /\ f.f36) THEN {"D75"} ELSE {})
   \cup (IF f.seqC /\ ((f.sumok /\ f19 # "none") \/ (~f.sumok /\ f19 = "none")) THEN {"D80"} ELSE {})
   \cup (IF f19 = "bad" THEN {"C01"} ELSE {})
-  \cup (IF f.ntx = 2 /\ f.cur2 = "diff" THEN {"C02"} ELSE {})
+  \cup (IF f.ntx >= 2 /\ f.cur2 # "same" THEN {"C02"} ELSE {})
   \cup (IF rfdd /\ (InAnyB(f.f21E) \/ InAnyB(f.cr) \/ InAnyB(f.f52) \/ f.chB \/ f.seqC) THEN {"C96"} ELSE {})
   \cup (IF ~rfdd /\ (f.f21R \/ ~f.seqC) THEN {"C96"} ELSE {})
   \cup (IF (a23 /\ f.codeA = "ZZZZ") \/ (InAnyB(f.e23) /\ f.codeB \notin {"AUTH", "NAUT", "OTHR"}) THEN {"T47"} ELSE {})
   \cup (IF f.info /\ ((a23 /\ f.codeA # "OTHR") \/ (InAnyB(f.e23) /\ f.codeB # "OTHR")) THEN {"D81"} ELSE {})
 Tx104(f, i) ==
   <<"21">> \o Opt107(f.e23, "23E=" \o f.codeB \o (IF f.info THEN "/INFO" ELSE ""), FALSE, i) \o Opt107(f.f21E, "21E", FALSE, i)
-  \o <<"32B=" \o (IF i = 2 /\ f.cur2 = "diff" THEN "EUR" ELSE "USD") \o ":100">>
+  \o <<"32B=" \o (IF Deviates(f.cur2, i, f.ntx) THEN "EUR" ELSE "USD") \o ":100">>
   \o Opt107(f.ip, "50C", FALSE, i) \o Opt107(f.cr, "50K", FALSE, i) \o Opt107(f.f52, "52A", FALSE, i)
   \o <<"59=acct">> \o Opt107(f.f26T, "26T", FALSE, i) \o Opt107(f.f77B, "77B", FALSE, i)
   \o (IF i = 1 /\ f.f33 = "same" THEN <<"33B=USD:100">> ELSE IF i = 1 /\ f.f33 = "diffcur" THEN <<"33B=EUR:90">>
@@ -261,7 +264,7 @@ Build104(f) ==
   \o <<"30">> \o Opt107(f.ip, "50C", TRUE, 0) \o Opt107(f.cr, "50K", TRUE, 0) \o Opt107(f.f52, "52A", TRUE, 0)
   \o Opt107(f.f26T, "26T", TRUE, 0) \o Opt107(f.f77B, "77B", TRUE, 0) \o Opt107(f.f71A, "71A=SHA", TRUE, 0)
   \o (IF f.f72 THEN <<"72">> ELSE <<>>)
-  \o Tx104(f, 1) \o (IF f.ntx = 2 THEN Tx104(f, 2) ELSE <<>>)
+  \o Tx104(f, 1) \o (IF f.ntx >= 2 THEN Tx104(f, 2) ELSE <<>>) \o (IF f.ntx >= 3 THEN Tx104(f, 3) ELSE <<>>)
   \o (IF f.seqC
       THEN <<"32B=USD:" \o (IF f.sumok THEN ToString(100 * f.ntx) ELSE ToString(100 * f.ntx + 7))>>
            \o (IF f.f19 = "ok" THEN <<"19=" \o ToString(100 * f.ntx)>> ELSE IF f.f19 = "bad" THEN <<"19=" \o ToString(100 * f.ntx + 3)>> ELSE <<>>)
@@ -269,12 +272,12 @@ Build104(f) ==
       ELSE <<>>)
 
 (* ================================ MT110 ================================== *)
-Facts110 == {[n |-> n, cur2 |-> c] : n \in {1, 2, 10, 11}, c \in {"same", "diff"}}
-Expected110(f) == (IF f.n > 10 THEN {"T10"} ELSE {}) \cup (IF f.n >= 2 /\ f.cur2 = "diff" THEN {"C02"} ELSE {})
+Facts110 == {[n |-> n, cur2 |-> c] : n \in {1, 2, 3, 4, 10, 11}, c \in {"same", "diff", "lastdiff"}}
+Expected110(f) == (IF f.n > 10 THEN {"T10"} ELSE {}) \cup (IF f.n >= 2 /\ f.cur2 # "same" THEN {"C02"} ELSE {})
 Cheque(cur) == <<"21", "30", "32A=" \o cur \o ":100", "59=acct">>
 RECURSIVE Cat(_)
 Cat(ss) == IF ss = <<>> THEN <<>> ELSE Head(ss) \o Cat(Tail(ss))
-Build110(f) == <<"20">> \o Cat([i \in 1..f.n |-> Cheque(IF i = 2 /\ f.cur2 = "diff" THEN "EUR" ELSE "USD")])
+Build110(f) == <<"20">> \o Cat([i \in 1..f.n |-> Cheque(IF Deviates(f.cur2, i, f.n) THEN "EUR" ELSE "USD")])
 
 (* ============================ MT202 / MT205 ============================== *)
 Facts202 == {[a56 |-> a, a57 |-> b, cov |-> c, b56 |-> d, b57 |-> e] : a, b, c, d, e \in BOOLEAN}
@@ -288,20 +291,22 @@ Expected205(f) == IF f.a56 /\ ~f.a57 THEN {"C81"} ELSE {}
 Build205(f) == <<"20", "21", "32A=USD:1000">> \o (IF f.a56 THEN <<"56A">> ELSE <<>>) \o (IF f.a57 THEN <<"57A">> ELSE <<>>) \o <<"58A">>
 
 (* ================================ MT204 ================================== *)
-Facts204 == {[n |-> n, sum |-> s, cur2 |-> c] : n \in {1, 2, 10}, s \in BOOLEAN, c \in {"same", "diff"}}
-Expected204(f) == (IF ~f.sum THEN {"C01"} ELSE {}) \cup (IF f.n >= 2 /\ f.cur2 = "diff" THEN {"C02"} ELSE {})
+Facts204 == {[n |-> n, sum |-> s, cur2 |-> c] : n \in {1, 2, 3, 4, 10}, s \in BOOLEAN, c \in {"same", "diff", "lastdiff"}}
+Expected204(f) == (IF ~f.sum THEN {"C01"} ELSE {}) \cup (IF f.n >= 2 /\ f.cur2 # "same" THEN {"C02"} ELSE {})
 Build204(f) == <<"19=" \o (IF f.sum THEN ToString(100 * f.n) ELSE ToString(100 * f.n + 1)), "20", "30">>
-               \o Cat([i \in 1..f.n |-> <<"20", "32B=" \o (IF i = 2 /\ f.cur2 = "diff" THEN "EUR" ELSE "USD") \o ":100">>])
+               \o Cat([i \in 1..f.n |-> <<"20", "32B=" \o (IF Deviates(f.cur2, i, f.n) THEN "EUR" ELSE "USD") \o ":100">>])
 
 (* ================================ MT210 ================================== *)
 Party210 == {"none", "50", "52", "both"}
-Facts210 == {[p1 |-> a, p2 |-> b, cur2 |-> c] : a \in Party210, b \in Party210 \cup {"absent"}, c \in {"same", "diff"}}
+Facts210 == {[p1 |-> a, p2 |-> b, cur2 |-> c, n3 |-> 0] : a \in Party210, b \in Party210 \cup {"absent"}, c \in {"same", "diff"}}
+            \cup {[p1 |-> "50", p2 |-> "52", cur2 |-> c, n3 |-> n] : c \in {"same", "diff", "lastdiff"}, n \in {1, 2}}
 Expected210(f) == (IF f.p1 \in {"none", "both"} \/ f.p2 \in {"none", "both"} THEN {"C06"} ELSE {})
-                  \cup (IF f.p2 # "absent" /\ f.cur2 = "diff" THEN {"C02"} ELSE {})
+                  \cup (IF f.p2 # "absent" /\ f.cur2 # "same" THEN {"C02"} ELSE {})
 Seq210(p, cur) == <<"32B=" \o cur \o ":100">> \o (IF p \in {"50", "both"} THEN <<"50">> ELSE <<>>)
                   \o (IF p \in {"52", "both"} THEN <<"52A">> ELSE <<>>)
 Build210(f) == <<"20", "30">> \o Seq210(f.p1, "USD")
-               \o (IF f.p2 = "absent" THEN <<>> ELSE Seq210(f.p2, IF f.cur2 = "diff" THEN "EUR" ELSE "USD"))
+               \o (IF f.p2 = "absent" THEN <<>> ELSE Seq210(f.p2, IF Deviates(f.cur2, 2, 2 + f.n3) THEN "EUR" ELSE "USD"))
+               \o Cat([i \in 1..f.n3 |-> Seq210("50", IF Deviates(f.cur2, 2 + i, 2 + f.n3) THEN "EUR" ELSE "USD")])
 
 (* ================================ MT910 ================================== *)
 Facts910 == {[h50 |-> a, h52 |-> b] : a, b \in BOOLEAN}
